@@ -1236,7 +1236,17 @@ func validateProposedConfigEntryInServiceGraph(
 		svcTopNodeType              = make(map[structs.ServiceID]string)
 		exportedServicesByPartition = make(map[string]map[structs.ServiceName]struct{})
 	)
-	for serviceID := range checkChains {
+	// Check the chains in sorted order so that, when several of them are
+	// invalid, the one named in the error does not depend on map iteration
+	// order (this runs inside the Raft FSM).
+	chainIDs := maps.SliceOfKeys(checkChains)
+	sort.Slice(chainIDs, func(i, j int) bool {
+		if chainIDs[i].EnterpriseMeta.IsSame(&chainIDs[j].EnterpriseMeta) {
+			return chainIDs[i].ID < chainIDs[j].ID
+		}
+		return chainIDs[i].EnterpriseMeta.LessThan(&chainIDs[j].EnterpriseMeta)
+	})
+	for _, serviceID := range chainIDs {
 		chain, err := testCompileDiscoveryChain(tx, serviceID.ID, overrides, &serviceID.EnterpriseMeta)
 		if err != nil {
 			return err
